@@ -63,7 +63,7 @@ class SolveTContract(FunctionContract):
     def setup(self, interp, scenario):
         ctx = interp.ctx
         hooks, off = scenario.split('/')
-        env = make_model(interp, BaseModel)
+        env = make_model(interp, BaseModel, with_lags=True)
         e = {}
         e['env'] = env
         n, nc, ne = env.n, env.nc, env.ne
@@ -88,7 +88,7 @@ class SolveTContract(FunctionContract):
         nm = z3.String('nm!endo')
         ctx.assume(z3.ForAll([nm], z3.Implies(InEndoP(nm), z3.And(0 <= EndoWitness(nm), EndoWitness(nm) < ne,
                                                               z3.Select(env.endo_arr, EndoWitness(nm)) == nm))))
-        e['inputs'] = {'n': n, 'nc': nc, 't': t, 'min_iter': min_iter, 'max_iter': max_iter, 'offset': offset, 'errors': errors,
+        e['inputs'] = {'lags': env.lags, 'leads': env.leads, 'n': n, 'nc': nc, 't': t, 'min_iter': min_iter, 'max_iter': max_iter, 'offset': offset, 'errors': errors,
                        'failures': failures, 'catch_first_error': cfe, 'tol': tol}
         self._install_calls(interp, e)
         self.loops = {0: self._offset_loop(e), 1: self._main_loop(e)}
@@ -305,6 +305,8 @@ class SolveTContract(FunctionContract):
         'errors==replace': lambda inputs, ob: inputs['errors'] == S('replace'),
         'offset!=0': lambda inputs, ob: inputs['offset'] != 0,
         'max_iter<=0': lambda inputs, ob: inputs['max_iter'] <= 0,
+        'infeasible-period': lambda inputs, ob: z3.Or(norm_index(inputs['t'], inputs['n']) < inputs['lags'],
+                                                      norm_index(inputs['t'], inputs['n']) > inputs['n'] - 1 - inputs['leads']),
     }
 
     def post(self, interp, scenario, call, out):
@@ -410,6 +412,8 @@ class SolveTContract(FunctionContract):
             return
 
         # ---- normal return ------------------------------------------------------------------------------------
+        ctx.prove(z3.And(nt >= env.lags, nt <= n - 1 - env.leads), 'infeasible_period_is_rejected_rather_than_served', 'raises', props=C4,
+                  note='a period that cannot accommodate the model\'s lags or leads must be rejected (the Python engine has no such guard)')
         ctx.prove(e['min_iter'] <= e['max_iter'], 'min_iter_exceeding_max_iter_is_rejected_first', 'raises', props=C2)
         ctx.prove(z3.Not(offset_bad), 'offset_outside_span_is_rejected', 'raises', props=C2)
         ctx.prove(z3.Not(pre_existing), 'pre_existing_nonfinite_under_raise_is_rejected_before_any_pass', 'raises', props=C6)
